@@ -77,6 +77,11 @@ CLAIMED = {
   note="Does not decide bit-for-bit equality of decode(encode(v)) with v, simple8b/Gorilla/bit-packing arithmetic, or that the WAL entry decoders' cursor arithmetic stays in bounds for every input ('without crashing' is not claimed: it needs integer reasoning this analysis lacks).",
   technique="static analysis: typed-AST table extraction and agreement, outcome facts at the count update, who-may-write, alias taint inside UnmarshalBinary, index-range cover between test and division loops",
   ref="§9 C13"),
+ "C12": dict(
+  text="Structural clauses of point encoding: every length decoded from a binary point bounds a slice/allocation only after a non-wrapping test against the input length on every path; every tag-key comparison of the parser's sort machinery (sorted fast path, insertion-sort comparator, duplicate check) compares keys extracted by the escape-aware scanner, and package models never locates a line-protocol delimiter with a raw byte search; NewPointFromBytes yields a point only after UnmarshalBinary succeeded and a nil point with every error; escape tables are backslash+character pairs shared by escape and unescape, and every delimiter the measurement/tag scanners stop at is escaped by the writer; the field-type dispatch validating/rebuilding binary points covers the five types; per line of ParsePointsWithPrecision a failed parse is recorded and not kept, a successful one is kept, nothing aborts the loop, and failures surface as the error.",
+  note="Does not decide that a valid line 'means what it says', numeric parsing, timestamp precision arithmetic (the overflow test of SafeCalcTime: seeded change C12-3 is not detected), UTF-8 handling, or exact text/binary round-trip equality.",
+  technique="static analysis: wire-length guard analysis with wrap-safety, definition provenance of comparison operands, typed-AST table agreement, enum exhaustiveness, per-iteration marked path exploration",
+  ref="§9 C12"),
 }
 
 NA = {
